@@ -659,6 +659,79 @@ def _shuffled_eval(F, R, sh1, sh2):
             "shuffled(feature, samples) no longer maps every requested sample through the permutation: %s" % bad)
 
 
+def rule_empty_reductions(F, R, fns):
+    """R-C08-11: an index list handed to the dataset may be empty (a weak learner that splits its samples hands the empty side of a split on; the
+    property admits any list). min() / max() of a tensor are Eigen's minCoeff / maxCoeff, undefined on an empty vector (an out-of-bounds read
+    of element 0 without assertions). Every min() / max() of an index-list parameter is therefore reached only where the list is known to be
+    non-empty: must-analysis over the CFG of "size() > 0" (gained on the success edge of `0 < x.size()`, `x.size() != 0`, `!x.empty()`, also
+    inside `&&` / `||`). Arguments of `critical(...)` are evaluated before the call, so a test inside its condition does not protect the
+    values printed in its message."""
+    from ..cfg import must_dataflow
+    n = 0
+    for f in fns:
+        if f.body is None or f.cfg is None:
+            continue
+        lists = {p_["d"]: p_.get("n") for p_ in f.params if "tensor_carray_storage_t, long, 1>" in (p_.get("t") or "")}
+        if not lists:
+            continue
+        sites = [c for c in f.calls(lambda x: x.get("ck") == "mem" and callee(x).split("::")[-1] in ("min", "max") and not args(x) and ref_decl(obj(x)) in lists)]
+        if not sites:
+            continue
+
+        def size_of(x):
+            x = skip(x)
+            while x is not None and x["k"] in ("cast", "paren") and x.get("c"):
+                x = skip(x["c"][0])
+            if x is not None and x["k"] == "call" and x.get("ck") == "mem" and callee(x).split("::")[-1] == "size" and not args(x) and ref_decl(obj(x)) in lists:
+                return ref_decl(obj(x))
+            return None
+
+        def t_edge(facts, b, k):
+            if b.cond is None or len(b.succ) != 2:
+                return None
+            inner, neg = strip_not(b.cond)
+            x = skip(inner) if inner is not None else None
+            d, pos = None, None           # pos: the condition being true means "non-empty"
+            if x is not None and x["k"] == "bin" and x["op"] in ("<", "<=", "!=", "=="):
+                a_, b_ = x["c"]
+                if x["op"] == "<" and is_zero(a_) and size_of(b_) is not None:
+                    d, pos = size_of(b_), True
+                elif x["op"] == "<=" and size_of(a_) is not None and is_zero(b_):
+                    d, pos = size_of(a_), False
+                elif x["op"] in ("!=", "==") and ((size_of(a_) is not None and is_zero(b_)) or (size_of(b_) is not None and is_zero(a_))):
+                    d, pos = size_of(a_) if size_of(a_) is not None else size_of(b_), x["op"] == "!="
+                elif x["op"] == "<=" and literal_value(a_) == 1 and size_of(b_) is not None:
+                    d, pos = size_of(b_), True
+            elif x is not None and x["k"] == "call" and x.get("ck") == "mem" and callee(x).split("::")[-1] == "empty" and ref_decl(obj(x)) in lists:
+                d, pos = ref_decl(obj(x)), False
+            elif x is not None and size_of(x) is not None:
+                d, pos = size_of(x), True
+            if d is not None and ((k == 0) != bool(neg)) == pos:
+                facts.add(d)
+            return None
+
+        IN, before = must_dataflow(f.cfg, set(), lambda facts, e: None, t_edge)
+        seen = set()
+        for c in sites:
+            d = ref_decl(obj(c))
+            w = f.cfg.where_enclosing(c)
+            facts = before(*w) if w is not None else None
+            if facts is None:
+                continue
+            n += 1
+            ok = d in facts
+            key = (f.relfile, c["l"], callee(c).split("::")[-1])
+            if key in seen and ok:
+                continue
+            seen.add(key)
+            R.check(ok, "R-C08-11", "%s %s@%d" % (f.qn.split("::", 1)[-1], pp(c), c["l"]), f.loc(c),
+                    "`%s` is evaluated only where the index list is known to be non-empty" % pp(c),
+                    "`%s` is evaluated also for an empty index list: minCoeff / maxCoeff of an empty vector read element 0 of no storage (a crash, not an exception). "
+                    "Empty lists are ordinary inputs - a decision tree hands the empty side of a split to the next node - and arguments of critical() are "
+                    "evaluated before the call, whatever its condition" % pp(c))
+    R.floor("R-C08-11", n, 2, "min() / max() of index-list parameters")
+
+
 def rule_drop_shuffle(F, R):
     """R-C08-10: the drop / shuffle bookkeeping: flag values agree between writers and readers, the permutation is stored and looked up under
     the shuffled feature's own index, applied to the requested samples, and the iterators read through it"""
@@ -817,3 +890,4 @@ def run(ctx):
     rule_encodings(F, R)
     rule_columns(F, R)
     rule_drop_shuffle(F, R)
+    rule_empty_reductions(F, R, anchored)
